@@ -132,6 +132,19 @@ def gen_workspace(rng, allow_const):
     ws.tags.add(f'crates{ncr}')
     ws.tags.add('depth' + str(max(len(f['sub']) for c in crates for f in c['files'])))
     allfiles = [f for c in crates for f in c['files']]
+    # a generic envelope type per crate (`pub struct Env2<T> { pub inner: T }`): the outer type of NESTED qualified references
+    # `e::..::Env2<d::..::Name>` - the inner path occurs only inside the generic arguments of another qualified path
+    envelopes = []                 # (file, item)
+    for k, c in enumerate(crates):
+        if c['files'] and rng.random() < 0.8:
+            f = rng.choice(c['files'])
+            it = progs.Item()
+            it.ident, it.kind, it.generics = f'Env{k}', 'struct', ['T']
+            fld = progs.Field()
+            fld.ident, fld.ty = 'inner', ('param', 'T')
+            it.fields = [fld]
+            f['prog'].items.append(it)
+            envelopes.append((f, it))
 
     def targets_of(f, same_crate):
         out = []
@@ -214,7 +227,32 @@ def gen_workspace(rng, allow_const):
                     globbed.add(d)
                     t = ('user', name, args)
                 else:
-                    t = ('raw', '::'.join([d] + (mods if rng.random() < 0.7 else [])) + '::' + progs.show_type(('user', name, args)))
+                    inner = '::'.join([d] + (mods if rng.random() < 0.7 else [])) + '::' + progs.show_type(('user', name, args))
+                    if envelopes and rng.random() < 0.55:
+                        # the qualified path sits ONLY inside the generic arguments of another qualified path: an envelope of a third
+                        # crate, of the target's crate, or of the file's own crate (crate:: / self:: / super::), possibly under Vec / Option / HashMap
+                        ef, eit = rng.choice(envelopes)
+                        emods = modpath(ef['sub'], ef['stem'])
+                        if ef['crate'] is f['crate']:
+                            head = 'self' if ef is f else rng.choice(['crate', 'crate', 'super'])
+                            outer = '::'.join([head] + (emods if head == 'crate' else [])) + '::' + eit.ident
+                            ws.tags.add('nested-qualified-local-envelope')
+                        else:
+                            outer = '::'.join([ef['crate']['name']] + (emods if rng.random() < 0.6 else [])) + '::' + eit.ident
+                            cr['explicit'].add(ef['crate']['name'])
+                            ws.tags.add('nested-qualified-third-crate' if ef['crate']['name'] != d else 'nested-qualified-same-crate')
+                        wi = rng.random()
+                        inner = f'Vec<{inner}>' if wi < 0.2 else f'Option<{inner}>' if wi < 0.35 else f'HashMap<String, {inner}>' if wi < 0.45 else inner
+                        if rng.random() < 0.2 and len(envelopes) > 1:      # two levels: e1::Env<e2::Env<d::Name>>
+                            ef2, eit2 = rng.choice(envelopes)
+                            if ef2['crate'] is not f['crate']:
+                                inner = ef2['crate']['name'] + '::' + eit2.ident + '<' + inner + '>'
+                                cr['explicit'].add(ef2['crate']['name'])
+                                ws.tags.add('nested-qualified-two-levels')
+                        t = ('raw', f'{outer}<{inner}>')
+                        ws.tags.add('nested-qualified')
+                    else:
+                        t = ('raw', inner)
                     explicit.add(d)
             w = rng.random()
             t = ('vec', t, '') if w < 0.25 else ('option', t) if w < 0.45 else ('hashmap', progs.t_prim('String'), t, '') if w < 0.55 else t
@@ -388,6 +426,14 @@ def corpus():
     mk('local-const-named-like-import', {'a/src/lib.rs': A, 'b/src/lib.rs': 'use a::A1;\n#[typeshare]\npub const A1: u32 = 1;\n#[typeshare]\npub struct B1 { pub f: A1 }\n'})
     mk('fallback-ignores-consts', {'a/src/lib.rs': A, 'e/src/lib.rs': '#[typeshare]\npub const A1: u32 = 1;\n#[typeshare]\npub struct E1 { pub x: u8 }\n',
                                    'b/src/lib.rs': 'use zz::A1;\n#[typeshare]\npub struct B1 { pub f: A1 }\n'}, reps=12, mix=True)
+    # a cross-crate type named ONLY by a qualified path inside the generic arguments of another qualified path (seeded C14_c)
+    ENV = '#[typeshare]\npub struct Envelope<T> { pub inner: T }\n#[typeshare]\npub struct Page<T> { pub items: Vec<T> }\n'
+    mk('nested-qualified-paths', {'envelope/src/lib.rs': ENV, 'a/src/lib.rs': A,
+                                  'b/src/lib.rs': '#[typeshare]\npub struct Local<T> { pub v: T }\n#[typeshare]\npub struct B1 { pub f: envelope::Envelope<a::A1>, pub g: Option<envelope::Page<a::A3>>, pub h: crate::Local<a::m::A1> }\n'
+                                                  '#[typeshare]\n#[serde(tag = "t", content = "c")]\npub enum E1 { V0(envelope::Envelope<Vec<a::A3>>), V1 { f: self::Local<envelope::Page<a::A1>> } }\n'
+                                                  '#[typeshare]\npub type L1 = envelope::Page<a::A1>;\n'})
+    mk('nested-qualified-only-inner', {'envelope/src/lib.rs': ENV, 'a/src/lib.rs': A,
+                                       'b/src/lib.rs': '#[typeshare]\npub struct B1 { pub f: envelope::Envelope<a::A3> }\n'})
     mk('generic-param-not-a-reference', {'a/src/lib.rs': '#[typeshare]\npub struct U { pub x: u8 }\n', 'b/src/lib.rs': 'use a::U;\n#[typeshare]\npub struct B1<U> { pub f: U }\n'})
     return out
 
